@@ -169,7 +169,7 @@ type scanner struct {
 }
 
 func (s *scanner) setPaging(query ast.Query) {
-	if query.GetSkip() == nil {
+	if query.GetSkip() == nil || *query.GetSkip() < 0 {
 		query.SetSkip(0)
 	}
 	s.targetOffset = *query.GetSkip()
@@ -209,6 +209,9 @@ func (scanner *memSortingScanner[T]) Scan(store *ObjectStore[T], query ast.Query
 	// function instead of putting the comparison on the elements, so we don't need to store a context with each row
 	results := &llrb.Tree{}
 	maxResults := scanner.targetOffset + scanner.targetLimit
+	if maxResults < 0 { // overflow: skip combined with an unbounded limit
+		maxResults = math.MaxInt64
+	}
 	for cursor.IsValid() {
 		rowCursor.current = cursor.Current()
 		cursor.Next()
